@@ -128,6 +128,23 @@ SOUP_TOKENS += ["lbl:\nlbl = lbl + 1", "c := 0\nc = c + 1", "c := 0\nc := c + 1"
 # positions in banks the active bus does not map (below, between and above the mapped ones), negative and oversized addresses
 SOUP_TOKENS += ["*=0x008000", "*=0x708000", "*=0x7F0000", "*=0-1", "*=0 - 0x10000", "@=0x7F0000", "@=0-1", "*=0xFFFFFF\n.dl 1", "*=0x1000000", "*=0x400000", "*=0xC00000", "*=0x3F8000\n.db 1", "*=0x000000\n.db 1", ".map identifier=9 bank_range=0xF0,0xFF addr_range=0x8000,0xFFFF mask=0x8000 mirror_bank_range=0x70,0x7F\n*=0x108000\n.db 1"]
 
+# .map directives with unusual (but writable) attribute values: zero / tiny / huge / non-power-of-two masks,
+# reversed and degenerate ranges, overlapping mirrors, a RAM mapping spelled the way emulator manifests do
+SOUP_TOKENS += [
+    ".map identifier=2 bank_range=0x7e, 0x7f addr_range=0x0000, 0xffff mask=0 writable=1\n*=0x7e0000\n.db 1",
+    ".map identifier=1 bank_range=0x00, 0x3f addr_range=0x8000, 0xffff mask=0\n*=0x008000\n.db 1",
+    ".map identifier=1 bank_range=0x3f, 0x00 addr_range=0x8000, 0xffff mask=0x8000\n*=0x008000\n.db 1",
+    ".map identifier=1 bank_range=0x00, 0xff addr_range=0xffff, 0x0000 mask=0x8000\n*=0x008000\n.db 1",
+    ".map identifier=1 bank_range=0, 0 addr_range=0, 0 mask=1\n*=0\n.db 1",
+    ".map identifier=1 bank_range=0x00, 0x3f addr_range=0x8000, 0xffff mask=0x7fff\n*=0x018000\n.db 1",
+    ".map identifier=1 bank_range=0x00, 0x3f addr_range=0x8000, 0xffff mask=0x1000000\n*=0x018000\n.db 1",
+    ".map identifier=1 bank_range=0x00, 0x3f addr_range=0x8000, 0xffff mask=0x8000 mirror_bank_range=0x00, 0x3f\n*=0x018000\n.db 1",
+    ".map identifier=1 bank_range=0x00, 0xffff addr_range=0x0000, 0xffffff mask=0x8000\n*=0x018000\n.db 1",
+    ".map identifier=0 bank_range=0x00, 0x3f addr_range=0x8000, 0xffff mask=3\n*=0x018000\n.db 1, 2, 3, 4, 5",
+    ".map identifier=1 bank_range=0x00, 0x3f addr_range=0x8000, 0xffff mask=0x8000\n.map identifier=1 bank_range=0x00, 0x3f addr_range=0x8000, 0xffff mask=0x10000\n*=0x018000\n.db 1",
+    "mask=0", "writable=0", "mirror_bank_range=0,0", "addr_range=0,0",
+]
+
 # odd spellings of -D values given to the command line (numbers in other notations, expressions, junk)
 CLI_DEFINE_VALUES = ["1", "0x10", "-5", "$8000", "%1010", "1.5", "'A'", "\"A\"", "", " ", "1 +", "(", "((1)", "1e5", "0b", "0x", "#1", "A", "X", "X+1", "0x8000,1", "1;2", "/*", "{", "é", "\\", "1\n2", "0" * 400, "9" * 400, "~1", "1<<70", "@", "`"]
 
@@ -206,6 +223,28 @@ def apply_fault(data: bytes, f: dict[str, Any]) -> bytes:
     n = len(data)
     if k == "truncate":
         return data[: f["at"]]
+    if k == "recode":
+        # what transfers between systems and editors do to a stored text file
+        how = f["how"]
+        if how == "crlf":
+            return data.replace(b"\r\n", b"\n").replace(b"\n", b"\r\n")
+        if how == "cr":
+            return data.replace(b"\r\n", b"\n").replace(b"\n", b"\r")
+        if how == "bom":
+            return b"\xef\xbb\xbf" + data
+        if how == "bom_crlf":
+            return b"\xef\xbb\xbf" + data.replace(b"\n", b"\r\n")
+        if how == "utf16":
+            return data.decode("utf-8", "replace").encode("utf-16")
+        if how == "ctrl_z":
+            return data + b"\x1a"
+        if how == "no_final_newline":
+            return data.rstrip(b"\n")
+        if how == "trailing_spaces":
+            return data.replace(b"\n", b"  \t\n")
+        if how == "form_feed":
+            return data.replace(b"\n", b"\n\x0c", 1)
+        return data
     if n == 0:
         return data
     if k == "lose":
@@ -400,7 +439,7 @@ def cli_defines_case() -> dict[str, Any]:
 
 def plan(tier: str) -> dict[str, Any]:
     fixed = [cli_defines_case()] + [{"type": "base", "seed": 1, "workload": zoo_workload()}, {"type": "base", "seed": 99, "workload": zoo_table_workload()}, {"type": "base", "seed": 98, "workload": zoo_ips_workload()}, {"type": "base", "seed": 97, "workload": chain_workload(45)}, {"type": "base", "seed": 95, "workload": nest_workload(40, "block")}, {"type": "base", "seed": 94, "workload": nest_workload(60, "mixed")}, {"type": "base", "seed": 93, "workload": nest_workload(40, "scope")}] + [{"type": "base", "seed": 2 + i, "workload": wl} for i, wl in enumerate(sample_workloads())]
-    return {"fixed": fixed, "seeded": 56 if tier == "quick" else 0, "chunk": 1, "wall_cap_s": 240, "minimise_s": 40}
+    return {"fixed": fixed, "seeded": 56 if tier == "quick" else 0, "chunk": 1, "wall_cap_s": 240, "minimise_s": 40, "max_report": 2}  # every reproduction of a hang costs up to two minutes
 
 
 # ---------------------------------------------------------------------------
@@ -422,6 +461,9 @@ def fault_menu(data: bytes, rng: random.Random, n_seeded: int) -> Iterator[list[
         cuts = sorted(c for c in cs if 0 <= c < n)
     for at in cuts:
         yield [{"kind": "truncate", "at": at}]
+    for how in ("crlf", "cr", "bom", "bom_crlf", "utf16", "ctrl_z", "no_final_newline", "trailing_spaces", "form_feed"):
+        yield [{"kind": "recode", "how": how}]
+        yield [{"kind": "recode", "how": how}, {"kind": "truncate", "at": rng.randrange(1, n + 1)}]
     toks = token_spans(data)
 
     def one() -> dict[str, Any]:
@@ -601,6 +643,8 @@ def expand(case: dict[str, Any], stats: Stats) -> Iterator[dict[str, Any]]:
             data = s["files"]["main.s"]
             if len(data) > 2:
                 yield {"type": "single", "workload": s, "faults": [{"kind": "truncate", "at": rng.randrange(1, len(data))}], "entry": "string", "e0": 50_000}
+            if rng.random() < 0.15:
+                yield {"type": "single", "workload": s, "faults": [{"kind": "recode", "how": rng.choice(["crlf", "cr", "bom", "bom_crlf", "ctrl_z", "trailing_spaces"])}], "entry": rng.choice(["string", "patch"]), "e0": 50_000}
         return
     # fault-free runs measure e0 (per entry point)
     e0: dict[str, int] = {}
